@@ -132,10 +132,10 @@ def run_property(prop, tier="quick", seed=0, workers=None, only=None):
             obligations.append(o)
         if r["error"]:
             errors.append((r["job"], r["error"]))
-    return finish(prop, mod, tier, seed, obligations, errors, jobs, t0)
+    return finish(prop, mod, tier, seed, obligations, errors, jobs, t0, partial=bool(only))
 
 
-def finish(prop, mod, tier, seed, obligations, errors, jobs, t0):
+def finish(prop, mod, tier, seed, obligations, errors, jobs, t0, partial=False):
     known = load_known()
     os.makedirs(EVIDENCE_DIR, exist_ok=True)
     viol, known_hits, undecided = [], [], []
@@ -229,7 +229,8 @@ def finish(prop, mod, tier, seed, obligations, errors, jobs, t0):
     ev = {"property_id": prop, "tier": tier, "seed": int(seed), "level": level, "coverage": cov,
           "assumptions": STANDING_ASSUMPTIONS + meta.get("assumptions", []) + kf_notes,
           "wall_s": round(wall, 2), "violations": len(viol)}
-    with open(os.path.join(EVIDENCE_DIR, f"{prop}.json"), "w") as f:
+    # a run restricted with --only covers part of the property: it must not replace the evidence of a full run
+    with open(os.path.join(EVIDENCE_DIR, f"{prop}.json" if not partial else f".partial_{prop}.json"), "w") as f:
         json.dump(ev, f, indent=1, default=str)
     print(f"[{prop}] tier={tier} jobs={len(jobs)} obligations={len(obligations)} discharged={len(discharged)} "
           f"violated={len(viol)} known={len(known_hits)} undecided={len(undecided)} errors={len(errors)} wall={wall:.1f}s")
